@@ -244,6 +244,59 @@ def facts():
     ]
 
 
+def config_macros():
+    """every ADEPT_* macro some header of include/adept tests in an #if/#ifdef/#ifndef/#elif, except include guards
+    (`#ifndef X` immediately followed by `#define X`) and ADEPT_STORAGE_THREAD_SAFE itself: the user-visible configuration
+    switches, as the source spells them (no list kept here)"""
+    import glob
+    tested, guards = set(), set()
+    for f in sorted(glob.glob(os.path.join(vbuild.REPO, "include", "adept", "*.h")) + [os.path.join(vbuild.REPO, "include", "adept.h")]):
+        try:
+            txt = open(f).read()
+        except OSError:
+            continue
+        txt = re.sub(r"\\\n", " ", txt)
+        for m in re.finditer(r"^[ \t]*#[ \t]*(?:if|ifdef|ifndef|elif)\b([^\n]*)", txt, flags=re.M):
+            tested.update(re.findall(r"\bADEPT_[A-Z0-9_]+\b", m.group(1)))
+        for m in re.finditer(r"^[ \t]*#[ \t]*ifndef[ \t]+(\w+)[^\n]*\n(?:[ \t]*\n)*[ \t]*#[ \t]*define[ \t]+(\w+)", txt, flags=re.M):
+            if m.group(1) == m.group(2) and re.search(r"_H(?:_|$)|^Adept", m.group(1)):
+                guards.add(m.group(1))
+    tested -= guards
+    tested.discard("ADEPT_STORAGE_THREAD_SAFE")
+    return sorted(tested)
+
+
+def combos():
+    """[(macro, ok)]: with -DADEPT_STORAGE_THREAD_SAFE -D<macro> the reference counter is still a std::atomic, remove_link/add_link keep
+    their single read-modify-write shape and the storage counters stay atomic.  A combination the headers reject with #error (or in
+    which class Storage is not compiled at all) cannot be built and is left out (returned separately)."""
+    from concurrent.futures import ThreadPoolExecutor
+    ms = config_macros()
+    ref = preprocess("c++11", ["ADEPT_STORAGE_THREAD_SAFE"])
+    bref = class_body(ref)
+    want = (remove_link_shape(bref), add_link_shape(bref))
+
+    def one(m):
+        try:
+            t = preprocess("c++11", ["ADEPT_STORAGE_THREAD_SAFE", m])
+        except TranslateError:
+            return (m, None)
+        try:
+            b = class_body(t)
+        except TranslateError:
+            return (m, None)
+        try:
+            ok = is_atomic_type(member_type(b, "n_links_")) and (remove_link_shape(b), add_link_shape(b)) == want \
+                and is_atomic_type(counter_types(t)) and counter_updates(t, b)
+        except TranslateError:
+            ok = False
+        return (m, ok)
+
+    with ThreadPoolExecutor(8) as ex:
+        res = list(ex.map(one, ms))
+    return [(m, ok) for m, ok in res if ok is not None], [m for m, ok in res if ok is None]
+
+
 DOC = {
     "nLinksTypeThreadSafe": "declared type of `Storage::n_links_` with -DADEPT_STORAGE_THREAD_SAFE",
     "nLinksTypeDefault": "declared type of `Storage::n_links_` in the default build",
@@ -266,7 +319,13 @@ def translate():
             L.append("def %s : Bool := %s" % (k, "true" if v else "false"))
         else:
             L.append('def %s : String := "%s"' % (k, v.replace("\\", "\\\\").replace('"', '\\"')))
-    L += ["", "end Adept.Generated.StorageCfg", ""]
+    cs, skipped = combos()
+    L += ["", "/-- every configuration macro the headers test (include guards excepted), paired with: `-DADEPT_STORAGE_THREAD_SAFE` given",
+          "    TOGETHER with that macro still yields an atomic `n_links_`, the single read-modify-write shapes of remove_link/add_link and",
+          "    atomic storage counters.  Combinations the headers reject (#error) are not listed: %s -/" % (", ".join(skipped) or "none"),
+          "def threadSafeUnderConfig : List (String × Bool) := ["]
+    L.append(",\n".join('  ("%s", %s)' % (m, "true" if ok else "false") for m, ok in cs))
+    L += ["]", "", "end Adept.Generated.StorageCfg", ""]
     return "\n".join(L)
 
 
